@@ -189,6 +189,12 @@ func (dc *TraditionalDnsConn) readLoop() {
 
 	for {
 		dc.c.SetReadDeadline(time.Now().Add(dc.idleTimeout))
+		// exchange() may have armed the shorter waiting-reply deadline concurrently.
+		// Don't let the idle deadline override it, otherwise a dead connection
+		// will only be detected after the idle timeout.
+		if dc.waitingResp.Load() && dc.idleTimeout > waitingReplyTimeout {
+			dc.c.SetReadDeadline(time.Now().Add(waitingReplyTimeout))
+		}
 		r, err := dc.readResp()
 		if err != nil {
 			dc.CloseWithErr(fmt.Errorf("read err, %w", err)) // abort this connection.
